@@ -18,6 +18,19 @@ Two further input dimensions (implementation-only: neither is in the vocabulary 
   for STALL seconds it reports that (`stalled`) and gives up, so a loop thread that is held by the teardown of a
   cancelled await costs STALL seconds, not the hard watchdog.
 
+Three more implementation-only dimensions:
+* `ret`: what the callee RETURNS is not plain data but a picklable object that looks like work still to be done - an
+  awaitable (class with __await__, also one whose __await__ raises), a generator-like iterator object, an object that is
+  both - or the coroutine object a coroutine function returns (not picklable).  Demanded: an instance of the very same
+  class with the same payload ("yields exactly what the function returns"); anything else is `returns some other value`.
+* `hold`: what the CALLER of the await does with an exception it catches: 'none' = turned into plain data on the spot,
+  traceback cleared (the behaviour of this worker so far); 'keep' = the ordinary `except ... as e: errors.append(e)`:
+  the exception object is kept AS IT IS until all invocations of the case are over.  Then: is it the very same object
+  another invocation of the case was handed (`shared_exc_with`)?  The objects are dropped before the fd / child census
+  (the count taken while they are still referenced is reported as `fd_delta_while_held`, not judged: see c17.py).
+* `round`: invocations with the same round number are awaited concurrently, the rounds of a case one after the other on
+  the same event loop - several failures in sequence AND at the same time in one process, one census after all of them.
+
 Observed (canonical, no timings): the awaited outcome and whether it is THIS invocation's own object (token), the pid the
 callee saw, keyword/positional arguments as the callee saw them, whether the parent's event loop kept ticking while the
 callee waited for it, and - at the very moment the await hands the outcome over - whether the pipe ends of this
@@ -60,6 +73,7 @@ class HardTimeout(BaseException):
 
 
 ESCAPED = object()
+HELD = []          # (invocation index, exception object) - what a caller with hold = 'keep' has caught in the current case
 SIGNALS_SEEN = []
 
 
@@ -319,6 +333,11 @@ def make_callee(inv, idx):
             raise cls(info)       # SystemExit(info): what sys.exit(info) raises
         if inv['reterr']:
             return M.SubprocessError(ex=SC.Inner({'token': token, 'pid': pid, 'pad': pad, 'extra': extra}))
+        ret = inv.get('ret', 'plain')
+        if ret == 'coroutine':
+            return SC.coro_result(info)          # a coroutine object: what calling a coroutine function returns
+        if ret in SC.RET_CLASSES:
+            return SC.RET_CLASSES[ret](info)     # a picklable awaitable / generator-like object carrying the payload
         return info
 
     if inv['async']:
@@ -396,6 +415,15 @@ def classify(inv, token, kind, obj):
             d['nested_ok'] = nested_good(inv, info)
 
     if kind == 'ret':
+        want = SC.RET_CLASSES.get(inv.get('ret', 'plain'))
+        if want is not None:
+            # the callee returned an instance of `want`: the awaiting task must get an instance of that very class
+            if type(obj) is want and isinstance(getattr(obj, 'info', None), dict):
+                obj = obj.info
+            else:
+                d['got_type'] = type(obj).__name__
+                d['final'] = [7, []] if (isinstance(obj, dict) and 'token' in obj and obj['token'] != token) else [2, []]
+                return d
         if isinstance(obj, dict) and 'token' in obj:
             if obj['token'] == token:
                 own(obj)
@@ -457,6 +485,10 @@ async def run_one(idx, inv):
             observe(idx)
             d = classify(inv, token, 'exc', ex)
             d['exc_name'] = type(ex).__name__
+            if inv.get('hold', 'none') == 'keep':
+                # the ordinary caller: keeps what it caught, untouched (traceback included), until the case is over
+                HELD.append((idx, ex))
+                return ESCAPED, d
             tb = ex.__traceback__
             ex.__traceback__ = None
             traceback.clear_frames(tb)
@@ -575,22 +607,41 @@ async def ticker():
 
 async def batch_main(invs):
     tk = asyncio.ensure_future(ticker())
+    res = [None] * len(invs)
     try:
-        res = await asyncio.gather(*[run_one(i, inv) for i, inv in enumerate(invs)], return_exceptions=True)
+        # invocations of one round concurrently, the rounds one after the other (same loop, same process)
+        for rnd in sorted(set(inv.get('round', 0) for inv in invs)):
+            idxs = [i for i, inv in enumerate(invs) if inv.get('round', 0) == rnd]
+            got = await asyncio.gather(*[run_one(i, invs[i]) for i in idxs], return_exceptions=True)
+            for i, r in zip(idxs, got):
+                res[i] = r
+            if any(isinstance(r, HardTimeout) or (isinstance(r, dict) and r.get('hang')) for r in got):
+                break                # a hang has been established: do not pay the watchdog once per round
     finally:
         tk.cancel()
     out = []
     for r in res:
-        if isinstance(r, BaseException):
+        if r is None:
+            out.append({'hang': None, 'final': [0, []], 'not_run': True})
+        elif isinstance(r, BaseException):
             out.append({'hang': 'sync' if isinstance(r, HardTimeout) else None, 'final': [0, []], 'error': repr(r)})
         else:
             out.append(r)
+    # the exception objects the callers have kept: is one of them the very object another invocation was handed?
+    by_id = {}
+    for idx, ex in HELD:
+        by_id.setdefault(id(ex), []).append(idx)
+    for idxs in by_id.values():
+        for i in idxs:
+            if len(idxs) > 1 and isinstance(out[i], dict):
+                out[i]['shared_exc_with'] = [j for j in idxs if j != i]
     return out
 
 
 def run_batch(case):
     invs = case['invs']
     REG.clear()
+    HELD.clear()
     for i in range(len(invs)):
         SHM[64 + i] = 0
         SHM[G_OFF + i] = 0
@@ -627,6 +678,11 @@ def run_batch(case):
         signal.setitimer(signal.ITIMER_REAL, 0)
         for sg, h in saved.items():
             signal.signal(sg, h)
+    fd_held = None
+    if HELD:
+        gc.collect()
+        fd_held = count_fds() - fd0      # while the callers still reference what they caught (reported, not judged)
+        HELD.clear()                     # ... and now they have dealt with it
     gc.collect()
     fd1 = count_fds()
     left = scan_children()
@@ -651,7 +707,7 @@ def run_batch(case):
         except OSError:
             pass
     order = sorted(range(len(res)), key=lambda i: res[i].get('done_at', 0))
-    return {'invs': res, 'fd_delta': fd1 - fd0, 'children_left': left, 'active_children': active,
+    return {'invs': res, 'fd_delta': fd1 - fd0, 'fd_delta_while_held': fd_held, 'children_left': left, 'active_children': active,
             'loop_broken': loop_broken, 'reordered': order != sorted(order)}
 
 
